@@ -4,6 +4,10 @@ import (
 	"bytes"
 	"errors"
 	"fmt"
+	"io"
+	"math/rand"
+	"strings"
+	"sync"
 	"time"
 
 	"verif/internal/mon"
@@ -181,4 +185,203 @@ func sizeClassLW(size, rs int) string {
 		return "tail<readsize"
 	}
 	return "tail>readsize"
+}
+
+// runWriteClose: "write, close, slow peer". The client writes Size bytes (every Write returns nil)
+// while the peer is not reading, then closes the transport; only then the peer starts reading, to
+// the end of its stream. Every byte whose Write was accepted must be received by the peer, in
+// order. Whether the stream then ends with EOF or a reset is recorded, not judged (the property
+// speaks about the bytes). Meaningful where the path buffers the payload: telnet (TCP socket
+// buffers) and the standard transport (2 MiB ssh channel window).
+func runWriteClose(d Desc) mon.Result {
+	t0 := time.Now()
+	l, err := openLink(d.T, d.ReadSize)
+	if err != nil {
+		return openFailed(d, t0, err)
+	}
+	defer l.close()
+	closed := false
+	defer func() {
+		if !closed {
+			l.closeTransport(true, 5*time.Second)
+		}
+	}()
+	bad := func(k, f string, a ...interface{}) mon.Result {
+		return mon.Result{Verdict: mon.Violated, Key: "c16/" + d.T + "/" + k, NonTrivial: true,
+			Detail: fmt.Sprintf("%s: %d bytes written (all Writes returned nil) while the peer was not reading, then Close(%v), then the peer reads: ", d.T, d.Size, d.How == "close") + fmt.Sprintf(f, a...)}
+	}
+	up := payload("prng", d.Size, d.Seed)
+	r := rand.New(rand.NewSource(d.Seed*31 + 7))
+	wdone := make(chan error, 1)
+	go func() {
+		o := 0
+		for _, c := range chunks(r, len(up), d.ReadSize) {
+			if e := l.tr.Write(up[o : o+c]); e != nil {
+				wdone <- e
+				return
+			}
+			o += c
+		}
+		wdone <- nil
+	}()
+	select {
+	case e := <-wdone:
+		if e != nil {
+			if mon.LoadedSince(t0) {
+				return mon.Result{Verdict: mon.Inconclusive, Detail: "write failed under load: " + e.Error()}
+			}
+			return bad("write-error", "Transport.Write failed: %v", e)
+		}
+	case <-time.After(20 * time.Second):
+		return mon.Result{Verdict: mon.Inconclusive, Detail: fmt.Sprintf("harness: %d bytes do not fit the path's buffers while the peer is not reading (write still blocked after 20 s)", d.Size)}
+	}
+	closed = true
+	if !l.closeTransport(d.How == "close", 5*time.Second) {
+		if mon.LoadedSince(t0) {
+			return mon.Result{Verdict: mon.Inconclusive, Detail: "Close did not return within 5 s under load"}
+		}
+		return bad("close-stuck", "Close did not return within 5 s")
+	}
+	time.Sleep(150 * time.Millisecond)
+	ps := newSink()
+	go peerReader(l, ps)
+	select {
+	case <-ps.done:
+	case <-time.After(lossWait):
+		if mon.LoadedSince(t0) {
+			return mon.Result{Verdict: mon.Inconclusive, Detail: "peer stream did not end under load"}
+		}
+		return bad("close:peer-still-connected", "the peer's stream did not end within %s after Close (it has %d of %d bytes)", lossWait, ps.len(), len(up))
+	}
+	got := ps.snapshot()
+	if !bytes.Equal(got, up) {
+		k := "up-lost-at-close"
+		if !bytes.HasPrefix(up, got) {
+			k = "up-corrupt"
+		}
+		return bad(k, "the peer received %d of the %d bytes that were written before Close; %s; its stream ended with: %v", len(got), len(up), firstDiff(got, up), ps.err)
+	}
+	end := "eof"
+	if ps.err != nil && !errors.Is(ps.err, io.EOF) {
+		end = "error(" + errClassShort(ps.err) + ")"
+	}
+	return mon.Result{Verdict: mon.Held, NonTrivial: d.Size > d.ReadSize,
+		Obs:    map[string]int64{"write_close_slow_peer_cases": 1, "bytes_written_before_close_and_received_after": int64(len(up))},
+		Tags:   []string{"transport=" + d.T, fmt.Sprintf("write-close:size=%d", d.Size), "write-close:peer-stream-ends-with=" + end, "write-close:" + d.How},
+		Sample: map[string]interface{}{"transport": d.T, "bytes": len(up), "close": d.How, "peer_stream_ended_with": fmt.Sprint(ps.err)}}
+}
+
+func errClassShort(e error) string {
+	s := e.Error()
+	if i := strings.LastIndex(s, ": "); i >= 0 {
+		s = s[i+2:]
+	}
+	return strings.ReplaceAll(s, " ", "-")
+}
+
+var bigChunk = func() []byte {
+	b := make([]byte, 1<<20)
+	rand.New(rand.NewSource(16)).Read(b)
+	return b
+}()
+
+// runStuckWrite: a Write is stuck in the implementation because the peer has stopped taking input
+// (more outstanding than the pty / socket buffers / ssh channel window hold). How = "close": a Read
+// is parked as well and Close(true) is called; How = "close-noforce": nobody reads, Close(false).
+// Close must return and the parked Read must return within 5 s. The stuck Write itself is not
+// judged (a pty master never wakes its writer; outside the property).
+func runStuckWrite(d Desc) mon.Result {
+	t0 := time.Now()
+	l, err := openLink(d.T, d.ReadSize)
+	if err != nil {
+		return openFailed(d, t0, err)
+	}
+	defer l.close()
+	closed := false
+	defer func() {
+		if !closed {
+			l.closeTransport(true, 5*time.Second)
+		}
+	}()
+	force := d.How == "close"
+	cs := newSink()
+	if force {
+		go clientReader(l, cs)
+	}
+	var mu sync.Mutex
+	written, lastProgress := 0, time.Now()
+	wret := make(chan error, 1)
+	go func() { // the peer never reads: sooner or later a Write does not come back
+		for i := 0; i < 512; i++ {
+			if e := l.tr.Write(bigChunk); e != nil {
+				wret <- e
+				return
+			}
+			mu.Lock()
+			written += len(bigChunk)
+			lastProgress = time.Now()
+			mu.Unlock()
+		}
+		wret <- errors.New("512 MiB accepted")
+	}()
+	stuck := false
+	deadline := time.Now().Add(60 * time.Second)
+	for time.Now().Before(deadline) {
+		select {
+		case e := <-wret:
+			return mon.Result{Verdict: mon.Inconclusive, Detail: "harness: the writer ended instead of getting stuck: " + e.Error()}
+		default:
+		}
+		mu.Lock()
+		idle := time.Since(lastProgress)
+		mu.Unlock()
+		if idle > 700*time.Millisecond {
+			stuck = true
+			break
+		}
+		time.Sleep(20 * time.Millisecond)
+	}
+	if !stuck {
+		return mon.Result{Verdict: mon.Inconclusive, Detail: "harness: no write got stuck within 60 s"}
+	}
+	if force {
+		select {
+		case <-cs.done:
+			return mon.Result{Verdict: mon.Violated, Key: "c16/" + d.T + "/read-error-on-live-link", NonTrivial: true,
+				Detail: fmt.Sprintf("Transport.Read returned %v while the peer was merely not reading", cs.err)}
+		default:
+		}
+	}
+	mu.Lock()
+	outstanding := written
+	mu.Unlock()
+	tc := time.Now()
+	before := cs.returned()
+	closed = true
+	closeReturned := l.closeTransport(force, 5*time.Second)
+	released := true
+	if force {
+		released = cs.waitReturn(before, 5*time.Second)
+	}
+	writeBack := false
+	select {
+	case <-wret:
+		writeBack = true
+	case <-time.After(50 * time.Millisecond):
+	}
+	if !closeReturned || !released {
+		if mon.LoadedSince(tc) {
+			return mon.Result{Verdict: mon.Inconclusive, Detail: "close/unblock not observed within 5 s under load"}
+		}
+		return mon.Result{Verdict: mon.Violated, Key: "c16/" + d.T + "/unblock:close:write-stuck", NonTrivial: true,
+			Detail: fmt.Sprintf("%s rs=%d: with a Write stuck in the implementation (peer not reading, %d bytes accepted before), 5 s after Close(%v) was called: Close returned=%v, parked Read returned=%v (stuck Write returned=%v, not judged)",
+				d.T, d.ReadSize, outstanding, force, closeReturned, released, writeBack)}
+	}
+	obs := map[string]int64{"stuck_write_cases": 1, "closes_returned_with_a_write_stuck": 1, "bytes_accepted_before_the_write_got_stuck": int64(outstanding)}
+	if force {
+		obs["reads_released_by_close"] = 1
+	}
+	return mon.Result{Verdict: mon.Held, NonTrivial: true, Obs: obs,
+		Tags:   []string{"transport=" + d.T, "stuck-write:" + d.How, fmt.Sprintf("stuck-write:writer-came-back=%v", writeBack)},
+		Sample: map[string]interface{}{"transport": d.T, "close": d.How, "bytes_accepted_before_stuck": outstanding, "stuck_write_returned": writeBack}}
 }
